@@ -303,7 +303,7 @@ def _whole(chk, N, partial_only=False):
 
     # sparse generic support (quick): a spread of cubic and quartic monomials including resonant and non-resonant ones
     keep_q = {3: set(range(0, 56, 5)), 4: set(range(0, 126, 18))}
-    keep_t = {3: set(range(0, 56, 3)), 4: set(range(0, 126, 9)), 5: set(range(0, 252, 42))}
+    keep_t = {3: set(range(0, 56, 5)), 4: set(range(0, 126, 18)), 5: set(range(0, 252, 63))}
     for modes in (((2.0, 3.0, 5.0), (1.5, 7 / 3, 2.2)) if N > 4 else ((1.5, 7 / 3, 2.2),)):
         chk.obl(f"partial normal form on a generic Hamiltonian (eta = {modes}, N = {N}): eliminated terms vanish, H_new == "
                 f"H_old o Phi, Phi canonical to order {N - 1}, Phi_inv o Phi == id", "K1 identity (bounded degree)",
